@@ -115,6 +115,21 @@ func (fr *frame) loopModSet(lp *loop) map[string]int {
 	e := fr.ft.e
 	e.freshScope = lp.body
 	defer func() { e.freshScope = nil }()
+	own := map[string]int{}
+	for b := range lp.body {
+		for _, ins := range b.Instrs {
+			isCalleeWrite := false
+			if ci, ok := ins.(ssa.CallInstruction); ok {
+				if _, isB := ci.Common().Value.(*ssa.Builtin); !isB || ci.Common().IsInvoke() {
+					isCalleeWrite = true
+				}
+			}
+			if !isCalleeWrite {
+				e.instrWritesLevel(ins, own)
+			}
+		}
+	}
+	fr.loopOwnWrites = own
 	for b := range lp.body {
 		for _, ins := range b.Instrs {
 			e.instrWritesLevel(ins, ms)
@@ -198,7 +213,27 @@ func (fr *frame) enterLoop(lp *loop, edges []inEdge, label string) (string, *Sta
 	}
 	// havoc
 	ms := fr.loopModSet(lp)
-	fr.havocLevels(st, ms, false)
+	// what escaped in an earlier iteration stays escaped: $esc only grows in the loop
+	{
+		escEntry := ft.heapTerm(st, escHeap)
+		escHdr := ft.fresh("$esc", arraySort(SRef, SBool))
+		ft.assume("true", fmt.Sprintf("(forall ((r Ref)) (! (=> (select %s r) (select %s r)) :pattern ((select %s r))))", escEntry, escHdr, escHdr))
+		st.heaps[escHeap] = escHdr
+	}
+	// heaps written in the loop only by callees: objects this function
+	// allocated and that never escaped (also not in an earlier iteration) keep
+	// their content; heaps written by the loop's own instructions are havocked
+	calleeOnly := map[string]int{}
+	ownAndAll := map[string]int{}
+	for h, l := range ms {
+		if fr.loopOwnWrites[h] == 0 && !strings.HasPrefix(h, "G$ghost$") && h != allocHeap && !strings.HasPrefix(h, "V$") {
+			calleeOnly[h] = l
+		} else {
+			ownAndAll[h] = l
+		}
+	}
+	fr.havocLevels(st, ownAndAll, false)
+	fr.havocLevels(st, calleeOnly, true)
 	for _, ins := range b.Instrs {
 		phi, ok := ins.(*ssa.Phi)
 		if !ok {
@@ -387,6 +422,8 @@ func (fr *frame) loopInvariantsBound(lp *loop) []boundInv {
 				// the loop was rewritten: its invariant no longer applies; the obligations
 				// that depended on it decide (and report) the outcome
 				fr.ft.note("invariant for loop %d of %s dropped: header %q does not match source %q", lp.ordinal, fr.fn.Name(), c.Header, line)
+				// an invariant that no longer binds is an obligation that cannot be discharged
+				fr.ft.e.contractError(c, fmt.Errorf("loop %d of %s: header %q does not match source %q", lp.ordinal, fr.fn.Name(), c.Header, strings.TrimSpace(line)))
 				return false
 			}
 		}
